@@ -59,7 +59,7 @@ Section Step.
     intros opc ip0 ip s Hs; unfold i_37_42; cbv zeta.
     destruct (op_u32 P ip); [|ok_close]. destruct (op_u32 P (ip + 4)); [|ok_close].
     destruct (salloc s _) as [s1 a] eqn:E. apply push_next_ok.
-    apply salloc_keep in E; [ok_close|destruct (opc =? 37)%N; intros ? ?; discriminate].
+    apply salloc_keep in E; [ok_close|destruct (opc =? 37)%N; plain_tac].
   Qed.
   Lemma i_38_ok : forall opc ip0 ip s, vm_ok s -> sres_ok (i_38 P opc ip0 ip s). Proof. instr i_38. Qed.
 
@@ -558,7 +558,7 @@ Section Step.
       assert (H3 : vm_ok s3).
       { unfold vm_ok, open_ok, cap in *. rewrite A1, A2. split; [eexists; exact Hh3|]. split; apply H1. }
       assert (K : keep s3 (set_heap s3 (hset (st_heap s3) ca (OClo ch car (cups ++ [ua']))))).
-      { apply clo_append_keep. exact Hca3. }
+      { apply clo_append_keep; [exact Hca3|intros _; eexists; exact A8]. }
       eexists. split; [reflexivity|]. split; [eapply keep_vm_ok; eauto|].
       split.
       { eapply keep_open_list; [exact K|]. unfold ua. rewrite <- Eua.
@@ -588,9 +588,10 @@ Section Step.
       unfold i_45. rewrite Ei, Eil. cbv zeta. rewrite E1, Eca. subst is_local. cbn [N.eqb negb].
       destruct (st_calls s1) as [|fr rest]; [exact I|].
       destruct (fr_clo fr) as [fa|]; [|exact I].
-      destruct (hget (st_heap s1) fa) as [[t|b|h ar|h|h ar fups|u]|]; try exact I.
-      destruct (nth_error fups _) as [ua|]; [|exact I]. cbn [sres_ok].
-      apply (keep_vm_ok s1); [|exact H1]. apply clo_append_keep. exact Eca.
+      destruct (hget (st_heap s1) fa) as [[t|b|h ar|h|h ar fups|u]|] eqn:Efa; try exact I.
+      destruct (nth_error fups _) as [ua|] eqn:Enth; [|exact I]. cbn [sres_ok].
+      apply (keep_vm_ok s1); [|exact H1]. apply clo_append_keep; [exact Eca|].
+      intros Hok. eapply Hok; [exact Efa|eapply nth_error_In; exact Enth].
     - destruct (top_offset s1) as [off|] eqn:Eo.
       2:{ unfold i_45. rewrite Ei, Eil. cbv zeta. rewrite E1, Eca.
           destruct (N.eqb_spec is_local 0); [contradiction|]. cbn [negb]. rewrite Eo. exact I. }
@@ -604,7 +605,9 @@ Section Step.
       destruct (in_dec Nat.eq_dec (off + N.to_nat index) (slots l)) as [Hin|Hnin].
       + unfold slots in Hin. apply in_map_iff in Hin. destruct Hin as ([a k] & Ek & Hin). cbn in Ek. subst k.
         rewrite (Hex a Hin). cbn [sres_ok].
-        apply (keep_vm_ok s1); [|exact H1]. apply clo_append_keep. exact Eca.
+        apply (keep_vm_ok s1); [|exact H1]. apply clo_append_keep; [exact Eca|].
+        intros _. destruct (seg_view _ _ _ _ _ _ Hseg Hin) as (nx & Ev). destruct (oview_some _ _ _ Ev) as (v & Hg).
+        eexists. exact Hg.
       + destruct (Hnew Hnin) as (s' & E & H' & _). rewrite E. exact H'.
   Qed.
 
